@@ -218,6 +218,8 @@ func (e *ExecutionConfig) setProposerSpecificOptions(ctx context.Context,
 	for _, proposerConfig := range e.Proposers {
 		var match bool
 		switch {
+		case proposerConfig == nil:
+			return errors.New("null proposer config; cannot apply")
 		case proposerConfig.Account != nil:
 			match = proposerConfig.Account.MatchString(accountName)
 		case !bytes.Equal(proposerConfig.Validator[:], zeroPubkey[:]):
